@@ -32,7 +32,7 @@ def _acyclic(n, edges):
     return not any(alive)
 
 
-def order(n, kind, same_names=False, fix=None):
+def order(n, kind, same_names=False, fix=None, bare=False):
     """kind: '>' (holder on the left), '<' (holder on the right), '-' , or 'mix' (symbolic per edge)"""
     pairs = [(i, j) for i in range(n) for j in range(n) if i != j]
     perms = list(itertools.permutations(range(n)))
@@ -51,6 +51,8 @@ def order(n, kind, same_names=False, fix=None):
         db = Database()
         for idx in perms[a['perm']]:
             db.add(tables[idx])
+        if bare:
+            db.add(Table('nocols', schema='ops'))      # a table without columns can only be built through the API: still one of the tables
         held = [0] * n        # number of '>' / '<' inline references whose FOREIGN KEY clause lives in table i
         edges = []
         refs = []
@@ -83,8 +85,9 @@ def order(n, kind, same_names=False, fix=None):
         reached()
         if sql1 != sql2:
             return 'rendering twice gives different text'
-        if refs and kind != 'mix':
+        if refs and kind != 'mix' and a['perm'] % 3 != 1:
             # "depends only on the model": edit one reference in place after rendering, compare with a freshly built equal model
+            # (for four of the six insertion orders: the edits cost four more renderings per path)
             r0, _, k0 = refs[0]
             r0.inline = False
             a2 = dict(a)
@@ -93,12 +96,25 @@ def order(n, kind, same_names=False, fix=None):
             if db.sql != db_f.sql:
                 return 'after an in-place edit the rendering differs from that of a freshly built identical model (stale order)'
             r0.inline = True
+            # ... and the same for an edit that moves the FOREIGN KEY to the other table (the kind is flipped)
+            if a['perm'] % 3 == 0:
+                flipped = '>' if k0 == '<' else '<'
+                r0.type = flipped
+                refs_f[0][0].inline = True
+                refs_f[0][0].type = flipped
+                if db.sql != db_f.sql:
+                    return 'after a reference changed its kind the rendering differs from that of a freshly built identical model (stale key holder)'
+                r0.type = k0
         r = ddl.read_or_none(sql1)
         if r is None:
             return 'DDL not readable'
         created = [s[1][-1] for s in r[0] if s[0] == 'table']
         created = [s[1] for s in r[0] if s[0] == 'table']
         names = [(f's{i}', 't') if same_names else (f't{i}',) for i in range(n)]
+        if bare:
+            if created.count(('ops', 'nocols')) != 1:
+                return 'CREATE TABLE statements are not a permutation of the tables (the table without columns is missing or repeated)'
+            created = [x for x in created if x != ('ops', 'nocols')]
         if len(created) != n or any(created.count(x) != 1 for x in names):
             return 'CREATE TABLE statements are not a permutation of the tables'
         pos = {x: created.index(x) for x in names}
@@ -140,6 +156,8 @@ def instances(tier):
             out.append({'name': f'order/n4/{k}/star', 'factory': 'order', 'params': {'n': 4, 'kind': k, 'fix': off}, 'timeout': 280, 'native_limit': 200})
         out.append({'name': 'order/n3/>/same_names', 'factory': 'order', 'params': {'n': 3, 'kind': '>', 'same_names': True}, 'timeout': 280,
                     'native_limit': 300})
+        out.append({'name': 'order/n2/mix/with_empty_table', 'factory': 'order', 'params': {'n': 2, 'kind': 'mix', 'bare': True}, 'timeout': 200,
+                    'native_limit': 100})
     else:
         # n = 4: every DAG is isomorphic to one whose edges go from a higher to a lower index; those 6 edges are symbolic, the insertion
         # order (24 permutations) is symbolic, the 6 upward edges are fixed to absent: 64 x 24 paths per kind
@@ -149,6 +167,7 @@ def instances(tier):
             out.append({'name': f'order/n4/{k}/downward', 'factory': 'order', 'params': {'n': 4, 'kind': k, 'fix': up}, 'timeout': 6000,
                         'path_timeout': 120, 'native_limit': 1500})
         out.append({'name': 'order/n3/mix', 'factory': 'order', 'params': {'n': 3, 'kind': 'mix'}, 'timeout': 6000, 'native_limit': 2000})
+        out.append({'name': 'order/n3/>/with_empty_table', 'factory': 'order', 'params': {'n': 3, 'kind': '>', 'bare': True}, 'timeout': 1200, 'native_limit': 400})
         for k in ('>', '<', '-'):
             out.append({'name': f'order/n3/{k}/same_names', 'factory': 'order', 'params': {'n': 3, 'kind': k, 'same_names': True},
                         'timeout': 1200, 'native_limit': 400})
